@@ -144,6 +144,29 @@ def run(ctx):
                     ctx.violation("C15:decode:%s" % b, "sheet %d of %r (%s, %s): read %s, logical table %s" % (sheet, doc, feats, charset, impl, want), case)
             if impl != m:
                 ctx.violation("C15:model:%s" % feats, "implementation %s, model %s" % (impl, m), case)
+        # ---- rows inside row containers (header rows, outline groups, plain row groups) ---------------------------------------------
+        group_docs = [fixed_doc, ws_doc + [[["only"]]], [[["r%d" % k_, "x"] for k_ in range(7)]], [[["a"], ["b"], ["c"]]], [[["a"], ["b"]]]]
+        group_cases = [(dict(zip(FEATURES, bits)), gd) for gd in group_docs
+                       for bits in ((False,) * 5, (True, False, False, False, False), (True, False, True, True, True), (False, False, True, False, True))]
+        group_outs = core.run_driver([line("odsg", "".join("1" if f[n_] else "0" for n_ in FEATURES), "1", "|".join(rows_str(rows) for rows in gd)) for f, gd in group_cases])
+        for (f, gd), mo in zip(group_cases, group_outs):
+            m, x = mo.split("\t")
+            m, x = m[2:], x[2:]
+            tree = ods_enc.regroup(ods_enc.encode_doc(f, gd))
+            if ods_enc.canonical(tree) != x:
+                ctx.machinery_error("the harness's regroup and Lean's regroupDoc produce different trees: %r" % ((f, gd),))
+                continue
+            path = os.path.join(tmp, "case.ods")
+            ods_enc.write_ods(path, tree)
+            impl = impl_rows(path, 1)
+            os.remove(path)
+            want = "ok " + rows_str(gd[0])
+            feats = "+".join(n_ for n_ in FEATURES if f[n_]) or "plain"
+            ctx.count(key=("row-containers", feats, repr(gd)), nontrivial=True, branch="row-containers")
+            if impl != want:
+                ctx.violation("C15:decode:row-containers", "sheet 1 of %r (%s, rows in containers): read %s, logical table %s" % (gd, feats, impl, want), {"doc": gd, "features": feats, "impl": impl})
+            if impl != m:
+                ctx.violation("C15:model:row-containers", "implementation %s, model %s" % (impl, m), {"doc": gd, "features": feats})
         # ---- fault paths --------------------------------------------------------------------------------------------
         tree = ods_enc.encode_doc({n_: False for n_ in FEATURES}, [[["a", "b"], ["c", "d"]]])
         good = os.path.join(tmp, "good.ods")
